@@ -22,7 +22,7 @@ import time
 HERE = os.path.dirname(os.path.dirname(os.path.abspath(__file__)))
 ALSO = {'C02-2': ['C07'], 'C03-1': ['C14'], 'C03-2': ['C11'], 'C05-2': ['C18'], 'C06-2': ['C12'], 'C07-1': ['C02'],
         'C07-2': ['C02'], 'C08-2': ['C14'], 'C11-1': ['C03'], 'C12-1': ['C07'], 'C14-1': ['C03'], 'C16-2': ['C04'],
-        'C18-1': ['C13'], 'C03-7': ['C14'],
+        'C18-1': ['C13'], 'C03-7': ['C14'], 'C12-7': ['C07', 'C02'], 'C06-9': ['C07', 'C02'],
         # round 2: changes that are (also) caught by the check of a neighbouring property
         'C02-4': ['C12'], 'C03-3': ['C09'], 'C03-4': ['C08'], 'C04-3': ['C12'], 'C04-4': ['C01'], 'C06-3': ['C11'],
         'C06-4': ['C12'], 'C06-5': ['C07'], 'C09-5': ['C03'], 'C10-3': ['C06'], 'C10-4': ['C06'], 'C11-5': ['C03'],
